@@ -94,6 +94,8 @@ class Path:
         self.cv = 0
         self.done = None                # ("return", term) / ("raise", term) / ("break",) / ("continue",)
         self.num_names = set()
+        self.objid = {}                 # name -> identity of the object it is bound to (binding event; aliases share it)
+        self.nbind = {}                 # name -> number of binding events on this path
 
     # ---- decisions
     def decide(self, text):
@@ -130,6 +132,26 @@ class Path:
             return bool(test.value)
         return self.decide(self.text(test))
 
+    def oid(self, name):
+        return self.objid.get(name, "in:%s" % name)
+
+    def root_oid(self, e):
+        """identity tag of the object a mutation goes through: the root name of a subscript / attribute chain"""
+        b = e
+        while isinstance(b, (ast.Subscript, ast.Attribute)):
+            b = b.value
+        if isinstance(b, ast.Name):
+            return self.oid(b.id)
+        return "expr"
+
+    def new_binding(self, name, value=None):
+        if isinstance(value, ast.Name):
+            self.objid[name] = self.oid(value.id)          # alias: same object
+        else:
+            k = self.nbind.get(name, 0)
+            self.nbind[name] = k + 1
+            self.objid[name] = "%s%s#%d" % (self.scope if self.scope != "n" else "", name, k)
+
     def effect(self, *item):
         self.trace.append(("e%d" % self.epoch,) + item)
         self.epoch += 1
@@ -143,7 +165,7 @@ class Path:
             t, ep = self.env[name]
             if ep == self.epoch:
                 return t
-            return self.atom("rd(%s)@%d" % (canon(t), self.epoch))
+            return self.atom("rd(%s|%s)@%d" % (canon(t), self.oid(name), self.epoch))
         return self.atom("%s@%d" % (name, self.epoch))
 
     def op(self, text):
@@ -307,13 +329,17 @@ class Path:
         if _is_pure_call(e):
             return self.op(txt)
         k = len(self.trace)
-        self.effect("call", txt)
+        ids = [self.root_oid(e.func.value)] if isinstance(e.func, ast.Attribute) else []
+        ids += [self.oid(a.id) for a in e.args if isinstance(a, ast.Name)]
+        ids += [self.oid(kw.value.id) for kw in e.keywords if isinstance(kw.value, ast.Name)]
+        self.effect("call", txt, tuple(ids))
         return self.atom("res#%d(%s)" % (k, txt))
 
     # ---- statements
     def bind(self, target, term, value=None):
         if isinstance(target, ast.Name):
             self.env[target.id] = (term, self.epoch)
+            self.new_binding(target.id, value)
             if value is not None and self.numeric(value):
                 self.num_names.add(target.id)
             else:
@@ -326,9 +352,9 @@ class Path:
                 else:
                     self.bind(x, self.atom("unpack(%s,%d)" % (t, k)))
         elif isinstance(target, ast.Subscript):
-            self.effect("store", self.text(target.value), self.slice_text(target.slice), canon(term))
+            self.effect("store", self.root_oid(target), self.text(target.value), self.slice_text(target.slice), canon(term))
         elif isinstance(target, ast.Attribute):
-            self.effect("setattr", self.text(target.value), target.attr, canon(term))
+            self.effect("setattr", self.root_oid(target), self.text(target.value), target.attr, canon(term))
         else:
             self.effect("bind?", ast.dump(target), canon(term))
 
@@ -349,15 +375,18 @@ class Path:
         nid = nid or self.new_nid()
         entry = tuple((v, canon(self.read(v)) if v in self.env else "-") for v in havoc)
         base_env = dict(self.env)
+        ids = dict(self.objid)
         for v in havoc:
             base_env[v] = (self.atom("lc(%s)#%s" % (v, nid)), self.epoch)
-        paths = explore(stmts, base_env, nid + ".", self.decided if inherit else None, self.epoch)
+            ids[v] = "lc:%s#%s" % (v, nid)
+        paths = explore(stmts, base_env, nid + ".", self.decided if inherit else None, self.epoch, ids)
         return (label, nid, entry, paths)
 
     def after(self, node, names):
         nid = node[1]
         for v in names:
             self.env[v] = (self.atom("after(%s)#%s" % (v, nid)), self.epoch)
+            self.objid[v] = "after:%s#%s" % (v, nid)
 
     def run(self, stmts):
         for s in stmts:
@@ -400,14 +429,16 @@ class Path:
                 else:
                     new = self.op("%s(%s,%s)" % (type(op).__name__, canon(cur), canon(v)))
                 # in place for mutable objects: other names may alias the object -> an effect (new epoch)
-                self.effect("aug", s.target.id, type(op).__name__, canon(v))
+                self.effect("aug", s.target.id, self.oid(s.target.id), type(op).__name__, canon(v))
                 self.env[s.target.id] = (new, self.epoch)
             else:
-                self.effect("augstore", self.text(s.target.value), self.slice_text(s.target.slice) if isinstance(s.target, ast.Subscript)
+                self.effect("augstore", self.root_oid(s.target), self.text(s.target.value), self.slice_text(s.target.slice) if isinstance(s.target, ast.Subscript)
                             else s.target.attr, type(s.op).__name__, canon(v))
             return
         if isinstance(s, ast.Return):
-            self.done = ("return", self.text(s.value) if s.value is not None else "None")
+            ids = tuple(self.oid(x.id) for x in ([s.value] if isinstance(s.value, ast.Name) else
+                                                   (s.value.elts if isinstance(s.value, (ast.Tuple, ast.List)) else [])) if isinstance(x, ast.Name))
+            self.done = ("return", self.text(s.value) if s.value is not None else "None", ids)
             return
         if isinstance(s, ast.Raise):
             self.done = ("raise", self.text(s.exc) if s.exc is not None else "", self.text(s.cause) if s.cause is not None else "")
@@ -494,7 +525,7 @@ def _stringy(e):
     return False
 
 
-def explore(stmts, env, scope, inherited=None, epoch0=0):
+def explore(stmts, env, scope, inherited=None, epoch0=0, objid=None):
     """all paths of a statement list -> sorted tuple of (decisions, trace, outcome, final bindings of assigned names)"""
     results = []
     work = [[]]
@@ -504,6 +535,8 @@ def explore(stmts, env, scope, inherited=None, epoch0=0):
         p = Path(dec, scope)
         p.env = dict(env)
         p.epoch = epoch0
+        if objid:
+            p.objid = dict(objid)
         if inherited:
             p.decided = dict(inherited)
         try:
